@@ -4,7 +4,7 @@
    forms are tied by the correspondence. *)
 From Coq Require Import ZArith List Bool.
 Import ListNotations.
-Require Import SV.Life.Model SV.Life.Shutdown SV.Life.RpcLemmas.
+Require Import SV.Life.Model SV.Life.Shutdown SV.Life.RpcLemmas SV.Life.InvProofs SV.Life.PolicyRun SV.Life.StopRun SV.Life.RpcRun.
 Open Scope Z_scope.
 
 Theorem c13_start_already_started :
@@ -76,3 +76,39 @@ Theorem c13_start_stopping_refuted :
   In (EAns 2 0) (out w) /\ nfork (out w) = 1%nat /\ sts w 0%nat = STOPPING.
 Proof. exact c13_start_stopping_witness. Qed.
 Print Assumptions c13_start_stopping_refuted.
+
+(* startProcess answering true (or deferring) forked a child for exactly that process in this call - or the process was STOPPING (the known finding) *)
+Theorem c13_start_true_implies_fork :
+  forall (U : Z) (pconfs : list pconf) (w : world) (i : nat) (wait : bool) (c : callres) (w' : world),
+         InvProofs.K w ->
+         start_process U pconfs i wait w = (Some c, w') ->
+         c = CDone 0 \/ c = CDefer ->
+         sts w i = STOPPING \/
+         spawnable_state (sts w i) = true /\
+         (exists (np : Z) (l : list effect),
+            out w' = l ++ EFork i np :: EState i (sts w i) STARTING (backoff (procs w i)) true :: out w).
+Proof. exact start_true_implies_fork. Qed.
+Print Assumptions c13_start_true_implies_fork.
+
+(* signalProcess answering true delivered exactly the named signal to exactly that process's child and changed nothing else *)
+Theorem c13_signal_delivers_exactly_one_kill :
+  forall (U : Z) (pconfs : list pconf) (w : world) (i : nat) (sig : Z) (w' : world),
+         InvProofs.K w ->
+         signal_process U pconfs i sig true w = (Some (CDone 0), w') ->
+         in_signallable_states (sts w i) = true /\
+         pid (procs w i) <> 0 /\
+         (exists r : Z,
+            (r = 0 \/ r = 1) /\
+            out w' = EKill (pid (procs w i)) sig r :: out w /\
+            (forall j : nat, sts w' j = sts w j /\ procs w' j = procs w j)).
+Proof. exact signal_delivers_exactly_one_kill. Qed.
+Print Assumptions c13_signal_delivers_exactly_one_kill.
+
+(* stopProcess(wait) answering true at once leaves the process STOPPED with no child *)
+Theorem c13_stop_true_means_stopped :
+  forall (U : Z) (pconfs : list pconf) (w : world) (i : nat) (w' : world),
+         InvProofs.K w ->
+         stop_process U pconfs i true w = (Some (CDone 0), w') ->
+         InvProofs.K w' /\ sts w' i = STOPPED /\ pid (procs w' i) = 0.
+Proof. exact stop_true_means_stopped. Qed.
+Print Assumptions c13_stop_true_means_stopped.
